@@ -249,7 +249,77 @@ def build_run_cases(tier):
     return cases
 
 
+def run_cli_part(_):
+    """`pybufrkit script` on two generated files (one runner object serves both): script given as argument, as file
+    (-f) and on stdin; nesting level by -n, by pragma, by both, by neither; metadata-only scripts.  Every printed line
+    must be what the documented levels give for that file."""
+    from mc.engine.cli import run_cli
+    from pybufrkit.decoder import Decoder
+    from pybufrkit.dataquery import DataQuerent, NodePathParser
+    p = Partial()
+    scratch = os.environ.get('VERIF_SCRATCH') or '/dev/shm'
+    files = []
+    try:
+        for k, (counts, comp) in enumerate((((0, 2), False), ((1, 1), True))):
+            fn = os.path.join(scratch, 'c18_%d_%d.bufr' % (os.getpid(), k))
+            with open(fn, 'wb') as f:
+                f.write(generated_message(counts, comp))
+            files.append(fn)
+        sfile = os.path.join(scratch, 'c18_%d.script' % os.getpid())
+        files.append(sfile)
+        msgs = [Decoder().process(open(fn, 'rb').read()) for fn in files[:2]]
+        for q in ('/102000/012001', '>002001', '/001001', '%n_subsets'):
+            for pragma in (None, 0, 1, 2, 4):
+                for arg in (None, 0, 1, 2, 4):
+                    for how in ('arg', 'file', 'stdin'):
+                        if how != 'arg' and (pragma, arg) not in ((None, None), (2, None), (None, 2), (4, 1), (0, None)):
+                            continue
+                        script = 'print(repr(${%s}))\n' % q
+                        if pragma is not None:
+                            script = '#$ data_values_nest_level = %d\n' % pragma + script
+                        argv = ['script'] + (['-n', str(arg)] if arg is not None else [])
+                        stdin = None
+                        if how == 'arg':
+                            argv += [script]
+                        elif how == 'file':
+                            with open(sfile, 'w') as f:
+                                f.write(script)
+                            argv += ['-f', sfile]
+                        else:
+                            argv += ['-']
+                            stdin = script
+                        argv += files[:2]
+                        out, err, exc, code = run_cli(argv, stdin)
+                        p.n['exec'] += 1
+                        level = arg if arg is not None else (pragma if pragma is not None else 1)
+                        exp = []
+                        for m in msgs:
+                            if q.startswith('%'):
+                                exp.append(repr(m.n_subsets.value))
+                                continue
+                            l4 = DataQuerent(NodePathParser()).query(m, q).all_values()
+                            l2 = [flat(x) for x in l4]
+                            l1 = flat(l2)
+                            exp.append(repr({0: l1[0] if l1 else None, 1: l1, 2: l2, 4: l4}[level]))
+                        p.outcome((how, pragma is None, arg is None, q[0] == '%'))
+                        case = {'query': q, 'pragma': pragma, 'arg': arg, 'how': how}
+                        if exc is not None or code not in (None, 0):
+                            p.violation('cli-script-fails|%s' % how, case, 'script command ended with %r / exit %r: %s' % (exc, code, err[-200:]))
+                        elif out.split('\n')[:-1] != exp:
+                            p.violation('cli-script-output|%s|%s' % ('pragma' if arg is None and pragma is not None else
+                                                                       ('option' if arg is not None else 'default'), how), case,
+                                        'printed %r, expected %r (level %d)' % (out.split('\n')[:-1], exp, level))
+    finally:
+        for fn in files:
+            if os.path.exists(fn):
+                os.remove(fn)
+    return p
+
+
 def replay(part, case):
+    if part == 'cli':
+        p = run_cli_part(None)
+        return [{'sig': v['sig'], 'detail': v['detail']} for v in p.viol if v['case'] == case]
     from pybufrkit.script import process_embedded_query_expr as proc
     if part.startswith('strings'):
         o, v = judge(proc, case)
@@ -293,4 +363,8 @@ def main(tier, seed):
     p.n['nodes'], p.n['edges'] = len(cases) + 1, len(cases)
     p.sample(cases[0]); p.sample(cases[-1])
     rep.add_part('run', p, bounds={'files': POOL_FILES, 'levels': [None, 0, 1, 2, 4], 'cases': len(cases)})
+    p = run_cli_part(None)
+    p.n['nodes'], p.n['edges'] = p.n['exec'] + 1, p.n['exec']
+    rep.add_part('cli', p, bounds={'invocations': p.n['exec'], 'files_per_invocation': 2, 'script_given_as': ['argument', '-f file', 'stdin'],
+                                   'levels': 'option x pragma in {none,0,1,2,4}'})
     return rep.finish()
